@@ -425,6 +425,21 @@ impl Harness {
         });
     }
 
+    /// Adds the results of a step that ran outside this process (e.g. a compile-fail step driven by
+    /// ./check) as a part of the evidence.
+    pub fn external_part(&mut self, name: &str, rule: &str, exhaustive: bool, stats: Stats) {
+        if self.replay.is_some() {
+            return;
+        }
+        self.parts.push(Part {
+            name: name.to_string(),
+            rule: rule.to_string(),
+            exhaustive,
+            stats,
+            wall_s: 0.0,
+        });
+    }
+
     /// proptest-driven search over choice tapes on all worker threads.
     ///
     /// `f(tape, stats)` interprets the tape, runs the case and returns `Err(description)` on a
@@ -584,7 +599,7 @@ impl Harness {
     }
 
     /// Writes evidence, prints the verdict and exits.
-    pub fn finish(self) -> ! {
+    pub fn finish(mut self) -> ! {
         if let Some((path, _)) = &self.replay {
             if !self.replay_matched {
                 eprintln!("replay file {} does not name a sub-check of this binary", path.display());
@@ -619,6 +634,52 @@ impl Harness {
             }));
         }
         let violations = if self.failure.is_some() { 1 } else { 0 };
+        // several binaries may contribute to one property: later ones merge into the file
+        let dir = PathBuf::from(VERIF_DIR).join("evidence");
+        let path = dir.join(format!("{}.json", self.prop));
+        let mut prior: Option<Value> = None;
+        if std::env::var("VERIF_EVIDENCE_APPEND").ok().as_deref() == Some("1") {
+            if let Ok(text) = std::fs::read_to_string(&path) {
+                if let Ok(v) = serde_json::from_str::<Value>(&text) {
+                    if v["tier"] == self.tier.name() && v["seed"] == json!(self.seed) {
+                        prior = Some(v);
+                    }
+                }
+            }
+        }
+        let mut prior_wall = 0.0;
+        let mut prior_violations = 0;
+        if let Some(p) = &prior {
+            evals += p["coverage"]["evaluations"].as_u64().unwrap_or(0);
+            nontrivial += p["coverage"]["distinct_nontrivial"].as_u64().unwrap_or(0);
+            if let Some(r) = p["coverage"]["rule"].as_str() {
+                rules.insert(0, r.to_string());
+            }
+            if let Some(a) = p["coverage"]["samples"].as_array() {
+                let mut merged = a.clone();
+                merged.extend(samples.drain(..));
+                merged.truncate(40);
+                samples = merged;
+            }
+            if let Some(a) = p["coverage"]["parts"].as_array() {
+                let mut merged = a.clone();
+                merged.extend(parts_json.drain(..));
+                parts_json = merged;
+            }
+            all_exhaustive &= p["coverage"]["exhaustive"].as_bool().unwrap_or(false);
+            prior_wall = p["wall_s"].as_f64().unwrap_or(0.0);
+            prior_violations = p["violations"].as_i64().unwrap_or(0);
+            if let Some(a) = p["assumptions"].as_array() {
+                let mut merged: Vec<String> = a.iter().filter_map(|x| x.as_str().map(|s| s.to_string())).collect();
+                for x in &self.assumptions {
+                    if !merged.contains(x) {
+                        merged.push(x.clone());
+                    }
+                }
+                self.assumptions = merged;
+            }
+        }
+        let violations = violations + prior_violations;
         let mut coverage = json!({
             "evaluations": evals,
             "distinct_nontrivial": nontrivial,
@@ -627,6 +688,15 @@ impl Harness {
             "exhaustive": all_exhaustive,
             "parts": parts_json,
         });
+        if let Some(p) = &prior {
+            if let Some(obj) = p["coverage"].as_object() {
+                for (k, v) in obj {
+                    if coverage.get(k).is_none() {
+                        coverage[k] = v.clone();
+                    }
+                }
+            }
+        }
         for (k, v) in &self.extra {
             coverage[k] = v.clone();
         }
@@ -637,12 +707,10 @@ impl Harness {
             "level": "exploration",
             "coverage": coverage,
             "assumptions": self.assumptions,
-            "wall_s": (self.started.elapsed().as_secs_f64() * 1000.0).round() / 1000.0,
+            "wall_s": ((self.started.elapsed().as_secs_f64() + prior_wall) * 1000.0).round() / 1000.0,
             "violations": violations,
         });
-        let dir = PathBuf::from(VERIF_DIR).join("evidence");
         let _ = std::fs::create_dir_all(&dir);
-        let path = dir.join(format!("{}.json", self.prop));
         let tmp = dir.join(format!(".{}.json.tmp{}", self.prop, std::process::id()));
         std::fs::write(&tmp, serde_json::to_string_pretty(&evidence).unwrap() + "\n").unwrap();
         std::fs::rename(&tmp, &path).unwrap();
